@@ -263,7 +263,7 @@ def table_cases(draw, max_n=8):
 
 class Tables(Facet):
     name = "tables"
-    examples = {"quick": 12000, "thorough": 600000}
+    examples = {"quick": 12000, "thorough": 300000}
     shards = {"quick": 16, "thorough": 16}
 
     def strategy(self, tier):
